@@ -83,9 +83,26 @@ def with_file(ex, st, cm, phase):
         return [(st, cm)]
 
 
+OVER = z3.Bool("pyvc!overapprox")     # assumed on every path that went through an un-modelled call (EXC-ANY: the result is arbitrary):
+                                      # a solver model on such a path is not a counterexample of the real code -> `unknown`, native replay decides
+
+
 class FsExecutor(Executor):
     def b_open(self, st, args, kwargs, node):
         return fs_call("open")(self, st, args, kwargs, node)
+
+    def havoc_call(self, st, what, args, node):
+        st.assume(OVER)          # before the fork: "may raise any Exception" is part of the over-approximation
+        return super().havoc_call(st, what, args, node)
+
+
+def _over(pc, goal):
+    return any(z3.is_const(x) and z3.eq(x, OVER) for x in pc)
+
+
+from pyvc import solve as _solve  # noqa: E402
+if not any(getattr(f, "__name__", "") == "_over" and f.__module__ == __name__ for f in _solve.SAT_UNTRUSTED):
+    _solve.SAT_UNTRUSTED.append(_over)
 
 
 def install(reg):
